@@ -1,6 +1,6 @@
 import json,sys
 pid=sys.argv[1]
-focus=int(sys.argv[2]) if len(sys.argv)>2 else None
+focus=int(sys.argv[2]) if len(sys.argv)>2 and sys.argv[2] not in ("", "-") else None
 suffix=sys.argv[3] if len(sys.argv)>3 else ''
 p=[json.loads(l) for l in open('/verif/properties.jsonl') if json.loads(l)['id']==pid][0]
 print(f"""You are testing a verification effort for the Python package `wikitextprocessor` (tatuylonen/wikitextprocessor: wikitext parser, template/parser-function expander, Scribunto Lua sandbox, SQLite page store).
